@@ -8,14 +8,32 @@ import (
 	"context"
 	_ "unsafe" // go:linkname
 
+	"github.com/prometheus/client_golang/prometheus"
+
 	"github.com/jonboulle/clockwork"
 	"github.com/libp2p/go-libp2p/core/host"
 	"github.com/libp2p/go-libp2p/core/peer"
 
-	_ "github.com/obolnetwork/charon/app" // the linked symbol's package
+	_ "github.com/obolnetwork/charon/app" // the linked symbols' packages
+	_ "github.com/obolnetwork/charon/app/health"
 	"github.com/obolnetwork/charon/app/eth2wrap"
 )
 
 //go:linkname startReadyChecker github.com/obolnetwork/charon/app.startReadyChecker
 func startReadyChecker(ctx context.Context, p2pNode host.Host, eth2Cl eth2wrap.Client, peerIDs []peer.ID,
 	clock clockwork.Clock, vapiCalls <-chan struct{}) func() error
+
+// The process-wide metrics the components write (read back through a small private registry: gathering everything
+// charon registers, with the Go and process collectors, for every observation costs milliseconds).
+
+//go:linkname readyzGaugeVar github.com/obolnetwork/charon/app.readyzGauge
+var readyzGaugeVar prometheus.Gauge
+
+//go:linkname checkGaugeVar github.com/obolnetwork/charon/app/health.checkGauge
+var checkGaugeVar *prometheus.GaugeVec
+
+//go:linkname checkFailedVar github.com/obolnetwork/charon/app/health.checkFailedCounter
+var checkFailedVar *prometheus.CounterVec
+
+//go:linkname highCardinalityVar github.com/obolnetwork/charon/app/health.highCardinalityGauge
+var highCardinalityVar *prometheus.GaugeVec
